@@ -1,0 +1,27 @@
+//go:build verif
+
+package sse
+
+import "sync/atomic"
+
+// VerifHook, when set (build tag verif only), is called at every named point of
+// Joe's protocol with the point's name and up to two values identifying the
+// subscription / publish / shutdown call and the value involved. The harness
+// uses it to record one totally ordered event trace, to perturb the schedule
+// and to park goroutines at chosen points.
+var verifHook atomic.Pointer[func(point string, a, b any)]
+
+// VerifSetHook installs (or, with nil, removes) the hook.
+func VerifSetHook(f func(point string, a, b any)) {
+	if f == nil {
+		verifHook.Store(nil)
+		return
+	}
+	verifHook.Store(&f)
+}
+
+func verifYield(point string, a, b any) {
+	if f := verifHook.Load(); f != nil {
+		(*f)(point, a, b)
+	}
+}
